@@ -187,7 +187,10 @@ def judge_layout(res, n, js, slots, lr):
     if cls == "err":
         kinds = lr.get("kinds") or []
         if "StoppedByWatchdog" in kinds:
-            res.violation("c14:layout:does-not-terminate", "layout building was still running after 400 000 polls", case)
+            # the poll budget is spent by the unification inside TypeChecker::unify (layout building itself polls once
+            # per slot): whether unification terminates is judged - and attributed to the recorded packed-evidence
+            # finding where it applies - at the unify level above, under that run's own order; here it is inconclusive
+            res.inconc("layout:unification-hit-the-poll-budget")
         else:
             res.count("layout_level_errors:%s" % ",".join(sorted(set(kinds)))[:60])
         return
